@@ -58,7 +58,12 @@ type Contract struct {
 	Nondet   bool              // trusted callee whose result is unconstrained but heap untouched
 }
 
-func (c *Contract) Key() string { return c.Pkg + "." + c.Fn }
+func (c *Contract) Key() string {
+	if c.Pkg == "" {
+		return c.Fn
+	}
+	return c.Pkg + "." + c.Fn
+}
 
 func (c *Contract) Opt(k string) string {
 	if c == nil || c.Opts == nil {
